@@ -243,6 +243,8 @@ def tlc(ctx, module, cfg_text, name, workers=None, timeout=900, extra=None,
     m = re.search(r"Action property (\S+) is violated", out)
     if m:
         res["violated"] = m.group(1)
+        if m.group(1) == "line":     # an unnamed [][A]_v inside a refinement
+            res["violated"] = "action-property"
     m = re.search(r'"TRACE_REJECTED_AT_LINE"\s*,\s*(\d+)\s*,\s*"OF"\s*,\s*(\d+)', out)
     if m:
         res["rejected_at"] = int(m.group(1))
